@@ -72,9 +72,22 @@ static void ec_tables(const struct ecimpl *im, int k, int rows, uint8_t *a, uint
 static size_t ec_tbl_size(int k, int rows) { return (size_t)32 * k * rows; }
 
 /* coefficient matrices that cycle through all 256 values, including 0 and 1 */
+static int EC_K = 1; /* number of columns, for the special matrices below */
+static const char *ec_special_name[] = { "all-zero", "all-one", "identity-pattern", "all-two", "one-value-per-row", "only-last-column" };
+/* salt >= 1000: special coefficient matrices (kind = salt - 1000) with EC_K columns; else a dense formula */
 static void ec_coeffs(uint8_t *a, int n, int salt)
 {
-	for (int i = 0; i < n; i++)
-		a[i] = (uint8_t)(i * 7 + salt * 31 + (i >> 5));
+	for (int i = 0; i < n; i++) {
+		int r = i / EC_K, c = i % EC_K;
+		switch (salt >= 1000 ? salt - 1000 : -1) {
+		case 0: a[i] = 0; break;
+		case 1: a[i] = 1; break;
+		case 2: a[i] = c == r % EC_K; break;
+		case 3: a[i] = 2; break;
+		case 4: a[i] = (uint8_t)(0x1d * (r + 1)); break;
+		case 5: a[i] = c == EC_K - 1 ? 0x53 : 0; break;
+		default: a[i] = (uint8_t)(i * 7 + salt * 31 + (i >> 5));
+		}
+	}
 }
 #endif
